@@ -55,6 +55,7 @@ structure Cfg (n : Nat) where
 /-- status codes (module.Status) -/
 def stOutOfStep : Nat := 10
 def stOutOfBalance : Nat := 11
+def stTimeout : Nat := 12
 def stInvalidParameter : Nat := 6
 def stContractNotFound : Nat := 2
 def stUnknown : Nat := 1
@@ -70,6 +71,7 @@ inductive Op (n : Nat) where
   | xfer (to : Fin n) (v : Int) (propagate : Bool)   -- inter-call: plain transfer in its own frame
   | call (to : Fin n) (v : Int) (lim : Nat) (body : List (Op n)) (propagate : Bool) -- inter-call: nested program
   | fail (code : Nat)                      -- revert
+  | timeout                                -- the frame ends with the Timeout status (cleanUpFrames class)
 
 /-- callFrame.deductSteps: returns new stepUsed and ok -/
 def deduct (used limit s : Nat) : Nat × Bool :=
@@ -124,7 +126,9 @@ structure OpsOut (n : Nat) where
 /-- the body of a scripted handler, running in the frame (logs, btp, used, limit);
     `callF` runs a nested program frame. After every `cc.Call` the caller does
     `cc.DeductSteps(used)`, which cannot fail because the callee's limit is at
-    most the caller's available steps. -/
+    most the caller's available steps.  A Timeout of a nested frame cannot be caught:
+    `handleResult` → `cleanUpFrames(target)` unwinds every frame up to the target of the
+    waiting `Call`, resets the world to the target frame's snapshot and drops all their logs. -/
 def runOps {n} (cfg : Cfg n)
     (callF : (frm to : Fin n) → Int → List (Op n) → World n → Nat → FrameOut n)
     (self : Fin n) (limit : Nat) :
@@ -145,16 +149,17 @@ def runOps {n} (cfg : Cfg n)
     | .xfer to v prop =>
       let r := xferFrame cfg w self to v (limit - used)
       let u := (deduct used limit r.used).1
-      if r.status ≠ 0 && prop then ⟨r.status, r.w, logs ++ r.logs, btp + r.btp, u⟩
+      if r.status ≠ 0 && (prop || r.status == stTimeout) then ⟨r.status, r.w, logs ++ r.logs, btp + r.btp, u⟩
       else runOps cfg callF self limit rest r.w (logs ++ r.logs) (btp + r.btp) u
     | .call to v lim body prop =>
       let avail := limit - used
       let l := if lim > 0 ∧ lim < avail then lim else avail
       let r := callF self to v body w l
       let u := (deduct used limit r.used).1
-      if r.status ≠ 0 && prop then ⟨r.status, r.w, logs ++ r.logs, btp + r.btp, u⟩
+      if r.status ≠ 0 && (prop || r.status == stTimeout) then ⟨r.status, r.w, logs ++ r.logs, btp + r.btp, u⟩
       else runOps cfg callF self limit rest r.w (logs ++ r.logs) (btp + r.btp) u
     | .fail code => ⟨stReverted + code % 8, w, logs, btp, used⟩
+    | .timeout => ⟨stTimeout, w, logs, btp, used⟩
 
 /-- a scripted handler in its own frame (`inter` = it is an inter-call and pays
     the contractCall step first); a positive value is moved first, as
@@ -227,7 +232,8 @@ def doExecute {n} (cfg : Cfg n) (fuel : Nat) (wInit w : World n) (tx : Tx n) : F
       if !ok2 then ⟨stOutOfStep, w, [], 0, u2⟩
       else
         let f := topFrame cfg fuel tx w (limit - u2)
-        ⟨f.status, f.w, f.logs, f.btp, (deduct u2 limit f.used).1⟩
+        -- `code == scoreresult.TimeoutError`: it consumes all steps
+        ⟨f.status, f.w, f.logs, f.btp, if f.status = stTimeout then limit else (deduct u2 limit f.used).1⟩
 
 /-- the fee part of `Execute`: sustain the minimum, the `for bal.Cmp(fee) < 0` loop
     unrolled (it runs at most twice), the charge, the receipt. `w` = wcs, the
